@@ -34,6 +34,17 @@ Definition c11_views_ok (c : c11_case) : bool :=
   if express then forallb (fun s => let '(r, _, h) := s in match v_status r, v_status h with None, None => true | _, _ => false end) l
   else forallb c11_agree l.
 
+(* the input that the notifications of an execution report is the same from the first (RUNNING) to the last (terminal)
+   notification; this is all an EXPRESS execution, which has neither record nor history, can be held to *)
+Definition note_inputs (l : list c11_sample) : list nat :=
+  flat_map (fun s => let '(_, n, _) := s in match v_status n, v_input n with Some _, Some i => [i] | _, _ => [] end) l.
+Definition c11_input_stable (c : c11_case) : bool :=
+  match note_inputs (snd c) with
+  | [] => true
+  | i0 :: rest => forallb (Nat.eqb i0) rest
+  end &&
+  forallb (fun s => let '(_, n, _) := s in match v_status n, v_input n with Some _, None => false | _, _ => true end) (snd c).
+
 (* one published notification: subject, the CloudWatch-style body, and the record (as JSON) read right after *)
 Definition c11_note := (string * json * json)%type.
 
